@@ -1,2 +1,97 @@
-/- placeholder driver for C19: replaced when the check for C19 is built -/
-def main : IO Unit := IO.println "not-built"
+import CashewsVerif.Driver.RedisProto
+/-
+Driver for C19 (interactive: one answer line per request line, flushed).
+
+  reset <suppress 0|1>          new stub server, new model world, new reference
+  enc <hex>…                    payloads the serializer decodes (parameter `isEnc`)
+  down <a>-<b>…                 client-call indices [a,b) at which the connection is down (model world)
+  srv <tok>…                    a wire-level command array from the stub redis package → reply (the Lean model IS the server)
+  srvadv <ms>                   time passes on the stub's server
+  op <cashews command>          model backend over its own server copy, and the reference:  model=… spec=… wire=… calls=…
+  dump                          visible keyspace of stub server / model server / reference
+  shas                          the SHA1s the script models are pinned to
+-/
+open CashewsVerif CashewsVerif.Redis CashewsVerif.Redis.Proto
+
+structure St where
+  stub : Srv
+  world : World
+  ref : KS
+  suppress : Bool
+  encs : List String
+  downs : List (Nat × Nat)
+
+def St.init : St := { stub := Srv.init, world := World.init, ref := KS.init, suppress := true, encs := [], downs := [] }
+
+def St.cfg (st : St) : Cfg :=
+  { suppress := st.suppress,
+    down := fun n => st.downs.any fun ab => ab.1 ≤ n && n < ab.2,
+    isEnc := fun h => st.encs.contains h }
+
+def parseIv? (s : String) : Option (Nat × Nat) :=
+  match s.splitOn "-" with
+  | [a, b] => do pure (← a.toNat?, ← b.toNat?)
+  | _ => none
+
+/-- reading a bit array (or any non-text string) as text is outside the model -/
+def touchesBits (s : Srv) : Cmd → Bool
+  | .get k => match s.ks.find k with | some ⟨.bits _, _⟩ => true | _ => false
+  | .mget ks => ks.any fun k => match s.ks.find k with | some ⟨.bits _, _⟩ => true | _ => false
+  | .evalsha _ k _ => match s.ks.find k with | some ⟨.bits _, _⟩ => true | _ => false
+  | .incrby k _ => match s.ks.find k with | some ⟨.bits _, _⟩ => true | _ => false
+  | .bitfield k _ => match s.ks.find k with | some ⟨.str _, _⟩ => true | _ => false
+  | _ => false
+
+def step (st : St) (line : String) : St × String :=
+  match words line with
+  | ["reset", s] => ({ St.init with suppress := s == "1" }, "ok")
+  | "enc" :: hs => ({ st with encs := hs ++ st.encs }, "ok")
+  | "down" :: ivs =>
+    match allSome (ivs.map parseIv?) with
+    | some l => ({ st with downs := l }, "ok")
+    | none => (st, "bad-op")
+  | "srv" :: toks =>
+    match parseWire? toks with
+    | none => (st, "bad-op")
+    | some c =>
+      if touchesBits st.stub c then (st, "unmodelled")
+      else
+        let (s', r) := st.stub.exec c
+        ({ st with stub := s' }, showReply r)
+  | ["srvadv", ms] =>
+    match ms.toNat? with
+    | some n => ({ st with stub := st.stub.adv n }, "ok")
+    | none => (st, "bad-op")
+  | "op" :: ws =>
+    match parseOp? ws with
+    | none => (st, "bad-op")
+    | some op =>
+      let cfg := st.cfg
+      let w0 := { st.world with log := [] }
+      let (w', o) := Redis.step cfg w0 op
+      let idx := (List.range (w'.calls - w0.calls)).map (· + w0.calls)
+      let anyDown := idx.any cfg.down
+      let allDown := !idx.isEmpty && idx.all cfg.down
+      let (t', o') := Ref.step cfg st.ref op
+      -- after a connection fault the reference restarts from the server's actual keyspace
+      let ref' := if anyDown then w'.srv.ks else t'
+      let spec := if anyDown then "~" else showOut o'
+      let b := fun (x : Bool) => if x then "T" else "F"
+      ({ st with world := w', ref := ref' },
+        s!"model={showOut o} spec={spec} wire={"|".intercalate (w'.log.map showReq)} calls={w'.calls} anydown={b anyDown} alldown={b allDown} fv={showOut (Ref.failureValue op)}")
+  | ["dump"] => (st, s!"stub={dumpKS st.stub.ks} model={dumpKS st.world.srv.ks} spec={dumpKS st.ref}")
+  | ["shas"] => (st, s!"unlock={Script.unlock.sha} incr_expire={Script.incrExpire.sha} incr_slice={Script.incrSlice.sha}")
+  | _ => (st, "bad-op")
+
+partial def loop (h : IO.FS.Stream) (out : IO.FS.Stream) (st : St) : IO Unit := do
+  let line ← h.getLine
+  if line.isEmpty then
+    out.flush
+    return ()
+  let (st', o) := step st line
+  out.putStrLn o
+  out.flush
+  loop h out st'
+
+def main : IO Unit := do
+  loop (← IO.getStdin) (← IO.getStdout) St.init
